@@ -564,6 +564,12 @@ pub fn replay<'a>(
                 pulled.push(s.next_back_obs())
             },
             Op::Nth(k) => pulled.push(s.nth_obs(*k)),
+            Op::NthBack(k) => {
+                if !s.is_de() {
+                    return bad("nth_back on a forward-only stream");
+                }
+                pulled.push(s.nth_back_obs(*k))
+            },
             Op::Wrap(st) => s = apply_stage(arena, s, st)?,
         }
     }
@@ -573,6 +579,8 @@ pub fn replay<'a>(
 #[derive(Clone, Debug)]
 pub struct ProbeOut {
     pub hint: (usize, Option<usize>),
+    /// `TrustedLen::len()` read at the same moment
+    pub tl_len: Option<usize>,
     pub drained: Vec<Obs>,
     pub capped: bool,
     pub pulled: Vec<Option<Obs>>,
@@ -596,12 +604,14 @@ pub fn probe(p: &Pipe, cut: usize) -> Result<ProbeOut, String> {
             Err(e) => Err(e),
             Ok(mut s) => {
                 let hint = s.size_hint();
+                let tl_len = s.tl_len();
                 let cap = hint.1.unwrap_or(DRAIN_LIMIT).min(DRAIN_LIMIT).saturating_add(16);
                 let (float, de, res, plain) = (s.is_float(), s.is_de(), s.is_res(), s.is_plain());
                 let (drained, capped) = s.drain(cap);
                 drop(s);
                 Ok(ProbeOut {
                     hint,
+                    tl_len,
                     drained,
                     capped,
                     pulled,
@@ -645,6 +655,8 @@ pub enum SinkOut {
     },
     Dropped,
     Drained(Vec<Obs>),
+    Counted(usize),
+    Last(Option<Obs>),
 }
 
 #[derive(Debug)]
@@ -1129,6 +1141,9 @@ pub fn commit(p: &Pipe, remaining: usize) -> Result<CommitOut, String> {
                     drop(s);
                     Ok(SinkRes { out: SinkOut::Dropped, dead: vec![] })
                 },
+                Terminal::Count => Ok(SinkRes { out: SinkOut::Counted(s.count()), dead: vec![] }),
+                Terminal::Last => Ok(SinkRes { out: SinkOut::Last(s.last_obs()), dead: vec![] }),
+                Terminal::ForEach => Ok(SinkRes { out: SinkOut::Drained(s.for_each_obs()), dead: vec![] }),
                 Terminal::HandOff(sink) => run_sink(s, sink, remaining),
             },
         };
